@@ -1,6 +1,7 @@
 CONSTANTS MaxSteps = 3
           Shape = "focused"
-          SeedNames = {"num", "nan", "mixed", "ties", "dup"}
+          SeedNames = {"num", "nan", "mixed", "ties", "dup", "real"}
+          ErrOnly = {}
           Hist = TRUE
 INIT Init
 NEXT Next
